@@ -6,11 +6,11 @@ EPS = 2.0 ** -52
 QMAX = 10 ** 6
 
 
-def rational(x, tol=1e-10):
-    """Unique p/q with q <= QMAX and |x - p/q| <= tol*max(1,|x|), else None."""
+def rational(x, tol=1e-10, qmax=QMAX):
+    """Unique p/q with q <= qmax and |x - p/q| <= tol*max(1,|x|), else None."""
     if x is None or math.isnan(x) or math.isinf(x):
         return None
-    f = Fraction(x).limit_denominator(QMAX)
+    f = Fraction(x).limit_denominator(qmax)
     if abs(float(f) - x) <= tol * max(1.0, abs(x)):
         if abs(f.numerator) >= 2 ** 31 or f.denominator >= 2 ** 31:
             return None
@@ -33,7 +33,8 @@ def decode_eps(x, pow_=1):
     k0 = int(round(math.log(abs(v)) / math.log(EPS)))
     for k in range(max(-24, k0 - 2), min(24, k0 + 2) + 1):
         try:
-            r = rational(v / (EPS ** k))
+            # products of a few small fractions (weighted geometric means): denominators up to 2^24
+            r = rational(v / (EPS ** k), qmax=2 ** 24)
         except (OverflowError, ZeroDivisionError):
             r = None
         if r is not None and r[0] != 0 and abs(r[0]) < 10 ** 8 and r[1] < 10 ** 8:
